@@ -7,6 +7,7 @@ import (
 	"errors"
 	"fmt"
 	"reflect"
+	"sort"
 	"sync"
 	"sync/atomic"
 	"time"
@@ -639,7 +640,24 @@ func c20Match(c *c20Case) map[string]interface{} {
 		if c.Fn == "Either" {
 			r = fpgo.Either(v, pats...)
 		} else {
-			r = fpgo.DefPattern(pats...).MatchFor(v)
+			// ONE PatternMatching value serves many probes: every other probe first (their outcomes are judged in their own cases), then
+			// this one - what a matcher did for earlier values must not decide what it does for this one
+			pm := fpgo.DefPattern(pats...)
+			names := make([]string, 0, len(c20Probes))
+			for n := range c20Probes {
+				names = append(names, n)
+			}
+			sort.Strings(names)
+			for _, n := range names {
+				if n != probe.Name {
+					func() {
+						defer func() { recover() }()
+						pm.MatchFor(c20Probes[n])
+					}()
+				}
+			}
+			ran = 0
+			r = pm.MatchFor(v)
 		}
 		if c.NilEff {
 			if r != nil {
